@@ -19,11 +19,11 @@ func init() {
 		Rule:      "BFS over action lists (B/F/M/T big steps); successor = fresh store + replay + 1 action; canonical state dedup; outcome = (#stored, #resident, sorted reasons, missing) of the drained state",
 		Assume:    []string{"a big step runs one thread alone between two named stopping points", "values are unique per Set so a notification identifies its incarnation"},
 		Quick: []Scenario{
-			mk("m1", 8, "12", 60), mk("m1-ttl", 16, "9", 60), mk("m2-3c", 16, "9", 60), mk("m1-pool", 8, "12", 60), mk("m1-pool-ttl", 8, "9", 60),
+			mk("m1", 8, "12", 60), mk("m1-ttl", 16, "9", 60), mk("m2-3c", 16, "9", 60), mk("m1-pool", 8, "12", 60), mk("m1-pool-ttl", 8, "9", 60), mk("m1-pool-reuse", 4, "11", 60),
 			icb("del-vs-evict", 8, "2", 60), icb("del-vs-expire", 8, "2", 60), icb("del-vs-evict-pool", 8, "2", 60), icb("update-vs-evict", 8, "2", 60), icb("update-vs-expire", 8, "2", 60),
 		},
 		Thorough: []Scenario{
-			mk("m1", 16, "14", 600), mk("m1-ttl", 16, "11", 600), mk("m2-3c", 16, "11", 600), mk("m1-pool", 16, "14", 600), mk("m1-pool-ttl", 16, "11", 600),
+			mk("m1", 16, "14", 600), mk("m1-ttl", 16, "11", 600), mk("m2-3c", 16, "11", 600), mk("m1-pool", 16, "14", 600), mk("m1-pool-ttl", 16, "11", 600), mk("m1-pool-reuse", 8, "13", 600),
 			icb("del-vs-evict", 16, "3", 900), icb("del-vs-expire", 16, "3", 900), icb("del-vs-evict-pool", 16, "3", 900), icb("update-vs-evict", 16, "3", 900), icb("update-vs-expire", 16, "3", 900),
 		},
 	})
